@@ -1555,6 +1555,34 @@ class Tr:
                 loop = ("fordown", iv, ("var", "__cnt_" + iv), None, inner)
                 envafter_fix = ("assign", ("var", iv), None, ("num", 0, None))
                 return self.stmts(f, [("expr", loop), envafter_fix] + ss[i + 1:], 0, env1, fin, retty)
+            if e[0] == "while" and f.gname in WHILE_FUEL:
+                # a `while c { body }` with no syntactic trip count: the loop runs on the tuple of the
+                # variables the body assigns with the round bound named in WHILE_FUEL (an expression of
+                # the function's parameters); running out of it is OutOfFuel, a value no Rust run has
+                c, body = e[1], e[2]
+                if body[2] is not None or self.has_return(body):
+                    raise Unsupported("fuelled while with a value or a return")
+                vs = self.assigned(body)
+                for v in vs:
+                    if v not in env:
+                        raise Unsupported("assignment to undeclared " + v)
+                if not vs:
+                    raise Unsupported("while loop without effect")
+                tup = lambda en: ("(" + ", ".join(en[v][0] for v in vs) + ")") if len(vs) != 1 else en[vs[0]][0]
+                pat = ("(" + ", ".join(vs) + ")") if len(vs) != 1 else vs[0]
+                env2 = dict(env)
+                for v in vs:
+                    env2[v] = (v, env[v][1])
+                bc, ac, tc = self.ex(f, c, env2, "bool")
+                bcode = self.stmts(f, body[1], 0, env2, lambda en: "Val " + tup(en), retty)
+                f.impure = True
+                w, st = f.fresh(), f.fresh()
+                cur = tup(env)
+                env = dict(env)
+                for v in vs:
+                    env[v] = (v, env[v][1])
+                return "do %s <- while_fuel (%s) %s (fun %s => let '%s := %s in %s Val %s) (fun %s => let '%s := %s in %s) ;\n  let '%s := %s in\n  %s" % (
+                    w, WHILE_FUEL[f.gname], cur, st, pat, st, " ".join(bc), paren(ac), st, pat, st, bcode, pat, w, rest(env))
             if e[0] == "while":
                 c, body = e[1], e[2]
                 ok = (c[0] == "bin" and c[1] == "<" and c[2][0] == "var" and body[2] is None and body[1]
@@ -1797,6 +1825,12 @@ def fn_text(txt, name, after=None):
 
 UINT_IMPL = "impl<const BITS: usize, const LIMBS: usize> Uint<BITS, LIMBS>"
 # (file, marker, rust fn name, name used at call sites, generated name, Self type)
+# round bounds of the `while` loops that have no syntactic trip count (see the fuelled-while case)
+WHILE_FUEL = {
+    "g_overflowing_pow": "Datatypes.S (Z.to_nat BITS)",     # exp < 2^BITS is halved every round
+    "g_wrapping_pow": "Datatypes.S (Z.to_nat BITS)",
+}
+
 TARGETS = [
     ("src/lib.rs", None, "nlimbs", "nlimbs", "g_nlimbs", None),
     ("src/lib.rs", None, "mask", "mask", "g_mask", None),
@@ -1915,6 +1949,11 @@ TARGETS = [
     ("src/add.rs", UINT_IMPL, "wrapping_sub", "U.wrapping_sub", "g_wrapping_sub", "uint"),
     ("src/add.rs", UINT_IMPL, "wrapping_neg", "U.wrapping_neg", "g_wrapping_neg", "uint"),
     ("src/add.rs", UINT_IMPL, "abs_diff", "U.abs_diff", "g_abs_diff", "uint"),
+    ("src/pow.rs", UINT_IMPL, "overflowing_pow", "U.overflowing_pow", "g_overflowing_pow", "uint"),
+    ("src/pow.rs", UINT_IMPL, "checked_pow", "U.checked_pow", "g_checked_pow", "uint"),
+    ("src/pow.rs", UINT_IMPL, "saturating_pow", "U.saturating_pow", "g_saturating_pow", "uint"),
+    ("src/pow.rs", UINT_IMPL, "wrapping_pow", "U.wrapping_pow", "g_wrapping_pow", "uint"),
+    ("src/pow.rs", UINT_IMPL, "pow", "U.pow", "g_pow", "uint"),
 ]
 
 
